@@ -969,3 +969,682 @@ def c11(tier):
     r.exhaustive = th
     r.assumptions = ["the served tree has no symlinks leading outside", "runtime noise (/proc, locale, cgroup files) appears in the control session too and cancels", "in the quick tier the exhaustive index space (4116 strings) is sampled with a coprime stride; the thorough tier covers it completely"]
     finish(r, tier)
+
+
+# ------------------------------------------------------------------ C12
+MAX_FRAME = 1 << 20
+
+
+def raw_frame(body, declared=None):
+    return struct.pack(">I", len(body) if declared is None else declared) + body
+
+
+def valid_session(b3, rng):
+    """[(name, bytes)] of a short valid session."""
+    c = b"session content " + rng.bytes(6).hex().encode() + b"." * rng.pick([0, 10, 5000])
+    h = b3.data(c)
+    return [("magic", cbor.MAGIC), ("hello", cbor.req_hello()), ("put", cbor.req_put("a", None, len(c), h) + c), ("get", cbor.req_get("a")), ("delete", cbor.req_delete("a", h)), ("list", cbor.req_list()), ("bye", cbor.req_bye())], c
+
+
+def gen_c12_input(rng, b3, idx, sweep=None):
+    """Returns dict(data, cls, invalid_by_construction, prefixes_sent, expect_file)."""
+    sess, content = valid_session(b3, rng)
+    full = b"".join(b for _, b in sess)
+    if sweep is not None:
+        kind, pos = sweep
+        if kind == "cut":
+            # every cut point of the session
+            data = full[:pos]
+            inval = pos < len(cbor.MAGIC) + len(cbor.req_hello()) + 4
+            return {"data": data, "cls": "cut-point", "invalid": inval, "prefixes": [], "content": content}
+    k = rng.below(12)
+    prefixes = []
+    inval = False
+    if k == 0:
+        data = rng.bytes(rng.range(0, 200))
+        if data[:6] == cbor.MAGIC:
+            data = b"X" + data
+        cls, inval = "random", True
+    elif k == 1:
+        banner = rng.pick([b"Welcome to host\n", b"SSH-2.0-OpenSSH\r\n", b"\x00", b"copia1", b"COPIA2", b"COPIA", b"COPIA\x31"[:5] + b"\x00", b" COPIA1"])
+        data = banner + (full[len(cbor.MAGIC):] if banner in (b"copia1", b"COPIA2") else full)
+        cls, inval = "banner-or-near-miss-magic", True
+    elif k == 2:
+        L = rng.pick([0, 1, MAX_FRAME - 1, MAX_FRAME, MAX_FRAME + 1, 1 << 24, 1 << 31, (1 << 32) - 1])
+        body = rng.bytes(rng.pick([0, 0, 5, 100]))
+        data = cbor.MAGIC + struct.pack(">I", L) + body
+        if L > MAX_FRAME:
+            prefixes.append(L)
+        cls = "length-prefix"
+        inval = True  # a first frame that cannot complete or cannot decode as a request
+        if L == len(body):
+            inval = L < 1  # could it decode? random bytes of len 1/5/100: not a request (checked by reply below)
+            inval = True
+    elif k == 3:
+        # after a valid hello: oversize prefix with and without body
+        L = rng.pick([MAX_FRAME + 1, 1 << 24, 1 << 31, (1 << 32) - 1])
+        data = cbor.MAGIC + cbor.req_hello() + struct.pack(">I", L) + rng.bytes(rng.pick([0, 64]))
+        prefixes.append(L)
+        cls = "oversize-prefix-after-hello"
+    elif k == 4:
+        major = rng.pick([2, 3, 4, 5])
+        b = cbor.head(major, rng.pick([1 << 20, 1 << 32, 1 << 40, (1 << 63) - 1, (1 << 64) - 1])) + rng.bytes(rng.range(0, 16))
+        data = cbor.MAGIC + cbor.req_hello() + raw_frame(b) + cbor.req_list()
+        cls = "cbor-huge-declared-length"
+    elif k == 5:
+        depth = rng.pick([10, 100, 1000, 10_000, 100_000, 500_000])
+        unit = rng.pick([b"\x81", b"\xa1\x00", b"\xc1", b"\x9f", b"\xbf\x00"])
+        b = (unit * depth + b"\x00")[: MAX_FRAME - 1]
+        data = cbor.MAGIC + cbor.req_hello() + raw_frame(b) + cbor.req_list()
+        cls = "cbor-deep-nesting"
+    elif k == 6:
+        odd = rng.pick([b"\x9f\x01\xff", b"\xbf\x61\x61\x01\xff", b"\x7f\x61\x61\xff", b"\x64Nope", b"\xa1\x63Get\x01", b"\xf6", b"\xa1\x63Get\xa2\x64path\x61x\x65extra\x01", b"\xa1\x63Put\xa1\x64path\x61x", b"\xa2\x63Get\xa1\x64path\x61x\x64List\xf6"])
+        data = cbor.MAGIC + cbor.req_hello() + raw_frame(odd) + cbor.req_list()
+        cls = "cbor-odd-items"
+    elif k == 7:
+        n = rng.pick([1000, 65536, MAX_FRAME - 64])
+        b = cbor.enc({"Get": {"path": "a" * n}})
+        data = cbor.MAGIC + cbor.req_hello() + raw_frame(b) + cbor.req_list()
+        cls = "long-path"
+    elif k == 8:
+        # mutate bytes of the session after the prologue
+        d = bytearray(full)
+        for _ in range(rng.range(1, 4)):
+            at = rng.range(len(cbor.MAGIC), len(d) - 1)
+            d[at] = rng.below(256)
+        data = bytes(d)
+        cls = "session-bytes-mutated"
+    elif k == 9:
+        parts = [b for _, b in sess]
+        i = rng.range(1, len(parts) - 2)
+        if rng.chance(1, 2):
+            parts.insert(i, parts[i])
+            cls = "frame-duplicated"
+        else:
+            parts[i], parts[i + 1] = parts[i + 1], parts[i]
+            cls = "frames-reordered"
+        data = b"".join(parts)
+    elif k == 10:
+        # truncated inside one of the first three frames
+        lim = len(cbor.MAGIC) + len(sess[1][1]) + len(sess[2][1]) + len(sess[3][1])
+        pos = rng.range(0, lim)
+        data = full[:pos]
+        cls = "session-truncated"
+        inval = pos < len(cbor.MAGIC) + len(sess[1][1]) + 4
+    else:
+        data = full
+        cls = "valid-session"
+    return {"data": data, "cls": cls, "invalid": inval, "prefixes": prefixes, "content": content}
+
+
+def c12_verdicts(r, trace, root, inp, viol, cnt, label):
+    err = r["err"]
+    if r["signal"] is not None:
+        viol("C12|serve|died-by-signal-%d|%s" % (r["signal"], inp["cls"]), dict(label, stderr=err[-300:]))
+    if "panicked" in err:
+        viol("C12|serve|panic-message|%s" % inp["cls"], dict(label, stderr=err[-300:]))
+    tr = read_traces(trace)
+    evs = [e for pid in tr for e in tr[pid]]
+    zero_reads = sum(1 for e in evs if e.op == "read0" and e.ret == 0)
+    cnt("max_zero_length_reads", zero_reads)
+    if zero_reads > 3:
+        viol("C12|serve|keeps-reading-closed-stdin", dict(label, zero_length_reads=zero_reads, timed_out=r["timed_out"]))
+    elif r["timed_out"]:
+        return "inconclusive"
+    allocs = [int(e.extra.split("=")[1]) for e in evs if e.op == "alloc" and "=" in e.extra]
+    for L in inp["prefixes"]:
+        big = [a for a in allocs if a >= L]
+        if big:
+            viol("C12|serve|allocation>=oversize-length-prefix", dict(label, prefix=L, allocation=max(big)))
+    if allocs:
+        cnt("runs_with_allocations_over_512KiB")
+    return "ok"
+
+
+def tree_without_control(root):
+    return {k: v for k, v in walk_root(root).items()}
+
+
+def _c12_worker(args):
+    seedv, lo, hi, wroot, mode = args
+    res = {"evaluations": 0, "distinct": set(), "viol": [], "counters": {}, "samples": [], "inconclusive": 0}
+    cn = res["counters"]
+
+    def cnt(k, n=1):
+        if k.startswith("max_"):
+            cn[k] = max(cn.get(k, 0), n)
+        else:
+            cn[k] = cn.get(k, 0) + n
+
+    b3 = B3()
+    wd = os.path.join(wroot, "w%d%s" % (lo, mode))
+    for idx in range(lo, hi):
+        rng = SplitMix.derive(seedv, "c12", mode, idx)
+        rmtree(wd)
+        root = os.path.join(wd, "ROOT")
+        home = os.path.join(wd, "home")
+        os.makedirs(home)
+        pre_exists = rng.chance(1, 2)
+        if pre_exists:
+            os.makedirs(root)
+            open(os.path.join(root, "keep"), "w").write("keep me")
+        found = []
+
+        def viol(sig, det):
+            found.append((sig, det))
+
+        trace = os.path.join(wd, "tr")
+        if mode == "resync":
+            # a well-framed request that draws an Error, then a valid tail; control = tail only
+            os.makedirs(root, exist_ok=True)
+            open(os.path.join(root, "keep"), "w").write("keep me")
+            bad_body = b"mismatching content " + rng.bytes(4).hex().encode() + b"#" * rng.pick([0, 300 * 1024])
+            errs = {
+                "get-not-found": cbor.req_get("no/such"),
+                "get-bad-path": cbor.req_get("../x"),
+                "get-absolute": cbor.req_get("/etc/passwd"),
+                "put-hash-mismatch": cbor.req_put("z", None, len(bad_body), b3.data(b"other")) + bad_body,
+                "put-bad-path-with-content": cbor.req_put("../z", None, len(bad_body), b3.data(bad_body)) + bad_body,
+                "put-bad-path-content-looks-like-frames": cbor.req_put("/z", None, len(cbor.req_delete("keep", None)), b3.data(cbor.req_delete("keep", None))) + cbor.req_delete("keep", None),
+                "delete-bad-path": cbor.req_delete("../keep", None),
+                "get-directory": cbor.req_get("."),
+            }
+            ek = sorted(errs)[idx % len(errs)]
+            tail = c11_tail(b3)
+            rc = root + ".ctl"
+            shutil.copytree(root, rc)
+            ctl = session(os.path.realpath(rc), cbor.MAGIC + cbor.req_hello() + b"".join(tail), base_env(home))
+            r = session(os.path.realpath(root), cbor.MAGIC + cbor.req_hello() + errs[ek] + b"".join(tail), base_env(home), trace=trace)
+            res["evaluations"] += 1
+            label = {"mode": "resync", "error_request": ek, "index": idx}
+            reps, ps = parse_replies(r["out"])
+            creps, _ = parse_replies(ctl["out"])
+            if len(reps) < 2 or reps[1].get("kind") != "Error":
+                viol("C12|resync|request-did-not-draw-an-error|" + ek, dict(label, reply=str(reps[1:2])[:200]))
+            got = [strip(x) for x in reps[2:]]
+            want = [strip(x) for x in creps[1:]]
+            if got != want or ps.broken:
+                viol("C12|resync|stream-out-of-step-after-error|" + ek, dict(label, got=str(got)[:300], want=str(want)[:300], broken=ps.broken))
+            if walk_root(os.path.realpath(root)) != walk_root(os.path.realpath(rc)):
+                viol("C12|resync|tree-differs-from-control|" + ek, dict(label))
+            res["distinct"].add("resync|%s|%s" % (ek, reps[1].get("kind") if len(reps) > 1 else None))
+            cnt("resync_sessions[%s]" % ek)
+            for sig, det in found:
+                res["viol"].append((sig, det))
+            continue
+        sweep = None
+        if mode == "cutsweep":
+            sweep = ("cut", idx)
+            rng = SplitMix.derive(seedv, "c12cut", 0)
+        inp = gen_c12_input(rng, b3, idx, sweep)
+        if mode == "cutsweep" and idx > len(b"".join(b for _, b in valid_session(b3, SplitMix.derive(seedv, "c12cut", 0))[0])):
+            continue
+        data = inp["data"]
+        before = walk_root(root) if pre_exists else {}
+        npieces = rng.range(1, 4)
+        pieces = None
+        if npieces > 1 and len(data) > 1:
+            cuts = sorted({rng.range(1, len(data) - 1) for _ in range(npieces - 1)})
+            pieces = [data[a:b] for a, b in zip([0] + cuts, cuts + [len(data)])]
+        r = session(root, data, base_env(home), trace=trace, alloc_floor=512 * 1024, pieces=pieces, rlimit_as_kib=1024 * 1024, timeout=40)
+        label = {"class": inp["cls"], "index": idx, "mode": mode, "len": len(data), "head": data[:48].hex(), "pieces": npieces}
+        v = c12_verdicts(r, trace, root, inp, viol, cnt, label)
+        if v == "inconclusive":
+            res["inconclusive"] += 1
+            continue
+        res["evaluations"] += 1
+        reps, ps = parse_replies(r["out"])
+        after = walk_root(root) if os.path.isdir(root) else {}
+        if inp["invalid"]:
+            if after != before:
+                viol("C12|serve|tree-changed-without-a-valid-request|" + inp["cls"], dict(label, diff=sorted(set(after.items()) ^ set(before.items()))[:4]))
+            cnt("inputs_invalid_by_construction")
+        else:
+            # whatever happened, listable paths hold complete verified content only
+            for rel, (idv, size) in after.items():
+                if rel.endswith(STAGING):
+                    continue
+                if rel == "keep" and idv == ident(b"keep me"):
+                    continue
+                if idv == ident(inp["content"]) and (rel == "a" or rel.startswith("a.conflict-")):
+                    continue
+                if inp["cls"] in ("session-bytes-mutated",):
+                    # a mutated path string or length may legitimately name another file with a verified body
+                    cnt("mutated_session_created_other_path")
+                    continue
+                viol("C12|serve|listable-path-with-unverified-bytes|" + inp["cls"], dict(label, path=rel, size=size))
+        exitc = "signal" if r["signal"] is not None else ("exit0" if r["code"] == 0 else "exit-nonzero")
+        first = reps[0].get("kind") if reps else "none"
+        if len(data) >= 10 or data[:6] == cbor.MAGIC:
+            res["distinct"].add("%s|%s|%s|%d" % (inp["cls"], exitc, first, min(len(reps), 4)))
+        cnt("inputs[%s]" % inp["cls"])
+        cnt("exit[%s]" % exitc)
+        for sig, det in found:
+            res["viol"].append((sig, det))
+        if len(res["samples"]) < 1:
+            res["samples"].append(dict(label, exit=exitc, replies=[x.get("kind") for x in reps][:6]))
+    b3.close()
+    rmtree(wd)
+    return res
+
+
+def c12(tier):
+    from common import run_vh
+    build("cli", "shim", "vh", "vh-debug")
+    r = Result("C12", "exploration", "process level: one evaluation = one byte string fed to one `copia serve` (in 1-4 pieces, then stdin closed) under the libc trace + allocation log (requests >= 512 KiB) and RLIMIT_AS = 1 GiB; verdicts: no signal/panic, <= 3 zero-length read(0) after EOF, no allocation >= a length prefix L > 2^20 that was sent, tree unchanged for inputs that are invalid by construction, listable paths hold only complete verified content otherwise; resync sessions (8 error-drawing requests x valid tail) must answer the tail exactly like a fresh control session; sweeps over every cut point of a session; in-process twin: wire.rs compiled unchanged, read_frame::<Request> on a hostile corpus under a counting allocator and catch_unwind (release and debug-assertion profiles); distinct non-trivial = distinct (generator class, exit class, first reply class, reply count) with a valid prologue or >= 10 bytes")
+    th = tier == "thorough"
+    wroot = workdir("c12")
+    jobs = []
+    for mode, n in (("fuzz", 60000 if th else 1800), ("resync", 2400 if th else 160), ("cutsweep", 5300 if th else 5300)):
+        if mode == "cutsweep" and not th:
+            n = 330
+        per = max(1, n // (NCPU * 2))
+        for lo in range(0, n, per):
+            jobs.append((seed(), lo, min(n, lo + per), wroot, mode))
+    fold(r, run_jobs(_c12_worker, jobs))
+    rmtree(wroot)
+    r.merge_vh(run_vh("c12", tier, cases=300000 if th else 20000), "twin-release:")
+    r.merge_vh(run_vh("c12", tier, profile="debug", cases=60000 if th else 4000, sd=seed() + 1000003), "twin-debug:")
+    r.assumptions = ["'no valid request' is asserted only for inputs that are so by construction; mutated frames are judged on crash/allocation/spin/content only", "allocation verdicts use exact evidence: a request >= a length prefix the driver put on the wire", "watchdog expiry without zero-length reads in the trace is inconclusive"]
+    finish(r, tier)
+
+
+# ------------------------------------------------------------------ C13
+HUBSYNC_RE = re.compile(r"Hub push complete: (\d+) sent, (\d+) unchanged, (\d+) conflict\(s\)")
+CONFLICT_LINE = re.compile(r"CAS conflict \(hub changed under us\): (.*) — hub kept a conflict-copy", re.S)
+
+
+def gen_local_tree(rng, universe, hostile=True):
+    from fsutil import HOSTILE_COMPONENTS
+    files = {}
+    for p in universe:
+        if rng.chance(2, 3):
+            size = rng.pick([0, 1, 50, 2000, 300 * 1024])
+            files[p] = (b"%s|" % rng.bytes(5).hex().encode()) * (size // 11 + (1 if size else 0)) if size else b""
+            files[p] = files[p][:size] if size else b""
+    if not files:
+        files[universe[0]] = b"only"
+    return files
+
+
+def hub_universe(rng, n=6):
+    from fsutil import HOSTILE_COMPONENTS
+    pool = ["a", "d/b", "d/e/c", "with space", "it's", "q?x", "st*r", "new\nline", "-dash", "é日", "$x", "..x", "x..", "back\\slash", "tab\tx"]
+    return rng.shuffle(pool)[:n]
+
+
+def materialise(base, files):
+    rmtree(base)
+    os.makedirs(base)
+    for p, data in files.items():
+        full = os.path.join(base, p)
+        os.makedirs(os.path.dirname(full), exist_ok=True)
+        with open(full, "wb") as f:
+            f.write(data)
+
+
+def hub_files(root):
+    return {k: v for k, v in walk_root(root).items() if not k.endswith(STAGING)}
+
+
+def _c13_seq_worker(args):
+    seedv, lo, hi, wroot = args
+    res = {"evaluations": 0, "distinct": set(), "viol": [], "counters": {}, "samples": [], "inconclusive": 0}
+    cn = res["counters"]
+
+    def cnt(k, n=1):
+        cn[k] = cn.get(k, 0) + n
+
+    b3 = B3()
+    for idx in range(lo, hi):
+        rng = SplitMix.derive(seedv, "c13", idx)
+        wd = os.path.join(wroot, "s%d" % lo)
+        rmtree(wd)
+        home = os.path.join(wd, "home")
+        os.makedirs(home)
+        bindir = install_standin(os.path.join(wd, "bin"))
+        via_ssh = rng.chance(1, 2)
+        # over ssh the root is re-parsed by the remote shell (as with real sshd): keep it a plain word there
+        root = os.path.join(wd, "hub" if via_ssh else rng.pick(["hub", "hub root", "hub's", "hüb$x"]))
+        target = ("vh:" + root) if via_ssh else root
+        uni = hub_universe(rng)
+        nclients = rng.range(1, 3)
+        env = base_env(home, path_prefix=bindir)
+        nruns = rng.range(2, 5)
+        prev_local = {}
+        for step in range(nruns):
+            c = rng.below(nclients)
+            files = gen_local_tree(rng, uni)
+            if rng.chance(1, 3) and c in prev_local:
+                files = prev_local[c]  # unchanged tree pushed again
+            prev_local[c] = files
+            local = os.path.join(wd, "local%d" % c)
+            materialise(local, files)
+            before = hub_files(root) if os.path.isdir(root) else {}
+            before_ino = {p: r.get("ino") for p, r in snapshot(root).items()} if os.path.isdir(root) else {}
+            r = run(["hub-sync", local, target], env, cwd=home, timeout=90)
+            if r.timed_out:
+                res["inconclusive"] += 1
+                break
+            res["evaluations"] += 1
+            label = {"index": idx, "step": step, "client": c, "via_ssh": via_ssh, "files": sorted(files)[:8]}
+            after = hub_files(root) if os.path.isdir(root) else {}
+            after_ino = {p: rr.get("ino") for p, rr in snapshot(root).items()} if os.path.isdir(root) else {}
+            m = HUBSYNC_RE.search(r.stdout)
+            cnt("runs[%s]" % ("ssh" if via_ssh else "local-target"))
+            if r.code == 0:
+                for p, data in files.items():
+                    if after.get(p, (None,))[0] != ident(data):
+                        res["viol"].append(("C13|exit0-local-file-not-on-hub", dict(label, path=p, run=r.brief())))
+                for p, v in before.items():
+                    if p in files:
+                        continue
+                    if after.get(p) != v or after_ino.get(p) != before_ino.get(p):
+                        res["viol"].append(("C13|exit0-hub-file-at-other-path-changed", dict(label, path=p)))
+                for p in after:
+                    if p not in before and p not in files:
+                        res["viol"].append(("C13|exit0-unexpected-hub-path-created", dict(label, path=p)))
+                if m:
+                    sent, unch, conf = map(int, m.groups())
+                    want_sent = sum(1 for p, d in files.items() if before.get(p, (None,))[0] != ident(d))
+                    if sent != want_sent or unch != len(files) - want_sent or conf != 0:
+                        res["viol"].append(("C13|counters-differ-from-model", dict(label, line=m.group(0), want=[want_sent, len(files) - want_sent, 0])))
+                    if want_sent and len(files) - want_sent:
+                        res["distinct"].add("seq|%s|n%d" % ("ssh" if via_ssh else "local", min(4, len(files))))
+                # the immediate second run sends nothing and the server mutates nothing under ROOT
+                trace = os.path.join(wd, "tr")
+                for f in os.listdir(wd):
+                    if f.startswith("tr."):
+                        os.unlink(os.path.join(wd, f))
+                snap0 = snapshot(root)
+                r2 = run(["hub-sync", local, target], shim_env(env, log=trace), cwd=home, timeout=90)
+                m2 = HUBSYNC_RE.search(r2.stdout)
+                if r2.code != 0 or not m2 or int(m2.group(1)) != 0 or int(m2.group(3)) != 0:
+                    res["viol"].append(("C13|second-run-sent-something", dict(label, run=r2.brief())))
+                tr = read_traces(trace)
+                from fsutil import MUTATING
+                rr = os.path.realpath(root)
+                muts = [e for pid in tr for e in tr[pid] if e.op in MUTATING and e.ret >= 0 and e.p1 and e.p1.startswith(rr + "/") and "/.copia" not in e.p1]
+                if muts:
+                    res["viol"].append(("C13|second-run-server-mutated-root", dict(label, calls=[repr(e) for e in muts[:3]])))
+                snap1 = snapshot(root)
+                if {p: (x.get("id"), x.get("ino")) for p, x in snap0.items()} != {p: (x.get("id"), x.get("ino")) for p, x in snap1.items()}:
+                    res["viol"].append(("C13|second-run-changed-hub-tree", dict(label)))
+                cnt("second_runs")
+            else:
+                # the statement makes no claim about a run that fails with a reported error
+                cnt("nonzero_exit_in_sequential_part")
+                if "Error" not in r.stderr:
+                    res["viol"].append(("C13|nonzero-exit-without-error-report", dict(label, run=r.brief())))
+            if len(res["samples"]) < 1:
+                res["samples"].append(dict(label, line=m.group(0) if m else None))
+        rmtree(wd)
+    b3.close()
+    return res
+
+
+class HubSyncGate:
+    """Two real `hub-sync` processes; only their `serve` children are gated. The scheduler holds
+    client 0's server at its first read(0) after it has listed the tree (stale listing), lets the
+    other client run to completion, then releases it; or interleaves around that point."""
+
+    def __init__(self, wd, root, locals_, env, rng, policy):
+        import socket as _s
+        self.wd, self.root, self.locals, self.env, self.rng, self.policy = wd, os.path.realpath(root), locals_, env, rng, policy
+        self.sockpath = os.path.join(wd, "g.sock")
+        self.procs = []
+        self.gates = {}
+        self.bufs = {}
+        self.pending = {}
+        self.listed = {}
+        self.lock_holder = None
+        self.trace = []
+        self.step = 0
+
+    def run(self):
+        import socket as _s
+        lst = _s.socket(_s.AF_UNIX, _s.SOCK_STREAM)
+        lst.bind(self.sockpath)
+        lst.listen(8)
+        lst.settimeout(20)
+        for i, local in enumerate(self.locals):
+            e = shim_env(self.env, gate=self.sockpath, root=self.root, tag=str(i), argv1="serve")
+            p = subprocess.Popen([COPIA, "hub-sync", local, self.root], env=e, stdin=subprocess.DEVNULL, stdout=subprocess.PIPE, stderr=subprocess.PIPE, cwd=self.wd, start_new_session=True)
+            self.procs.append(p)
+        try:
+            for _ in self.locals:
+                conn, _a = lst.accept()
+                conn.settimeout(20)
+                buf = b""
+                while b"\n" not in buf:
+                    d = conn.recv(4096)
+                    if not d:
+                        raise Inconclusive("gate hello eof")
+                    buf += d
+                line, rest = buf.split(b"\n", 1)
+                idx = int(line.split()[2])
+                self.gates[idx] = conn
+                self.bufs[idx] = rest
+        except OSError as ex:
+            raise Inconclusive("gate accept: %r" % (ex,))
+        finally:
+            lst.close()
+        for i in list(self.gates):
+            self.await_req(i)
+        held_released = False
+        while self.gates:
+            live = [i for i in self.gates if i in self.pending]
+            if not live:
+                break
+            enabled = [i for i in live if not (self.pending[i]["op"] == "flock" and self.lock_holder not in (None, i))]
+            if not enabled:
+                raise Inconclusive("all servers blocked")
+            choice = self.policy(self, enabled)
+            self.step += 1
+            self.do_step(choice)
+            if self.step > 4000:
+                raise Inconclusive("step budget")
+        outs = []
+        for p in self.procs:
+            try:
+                o, e = p.communicate(timeout=30)
+            except subprocess.TimeoutExpired:
+                os.killpg(p.pid, 9)
+                o, e = p.communicate()
+                raise Inconclusive("hub-sync did not exit")
+            outs.append((p.returncode, o.decode("utf-8", "replace"), e.decode("utf-8", "replace")))
+        return outs
+
+    def readline(self, i):
+        conn = self.gates[i]
+        while b"\n" not in self.bufs[i]:
+            try:
+                d = conn.recv(65536)
+            except OSError:
+                d = b""
+            if not d:
+                return None
+            self.bufs[i] += d
+        line, self.bufs[i] = self.bufs[i].split(b"\n", 1)
+        return line
+
+    def await_req(self, i):
+        line = self.readline(i)
+        if line is None:
+            self.gates[i].close()
+            del self.gates[i]
+            self.pending.pop(i, None)
+            if self.lock_holder == i:
+                self.lock_holder = None
+            return
+        parts = line.decode("utf-8", "surrogateescape").split(" ")
+        self.pending[i] = {"op": parts[2], "path": parts[3] if len(parts) > 3 else ""}
+
+    def do_step(self, i):
+        pend = self.pending.pop(i)
+        self.gates[i].sendall(b"GO\n")
+        line = self.readline(i)
+        if line is None:
+            self.await_req(i)
+            return
+        parts = line.decode().split(" ")
+        if parts[0] == "BLOCKED":
+            self.trace.append((self.step, i, "flock BLOCKED"))
+            self.await_req(i)
+            return
+        ret = int(parts[2])
+        if pend["op"] == "flock" and ret == 0:
+            self.lock_holder = i
+        if pend["op"] == "unlock" and self.lock_holder == i:
+            self.lock_holder = None
+        if pend["op"] == "opendir":
+            self.listed[i] = True
+        self.trace.append((self.step, i, "%s %s -> %d" % (pend["op"], pend["path"][-40:], ret)))
+        self.await_req(i)
+
+
+def stale_policy(hold, rng, jitter):
+    """Hold server `hold` at its first read0 after listing until the other has finished."""
+    def pol(g, enabled):
+        others = [i for i in enabled if i != hold]
+        if hold in enabled:
+            p = g.pending[hold]
+            at_hold_point = g.listed.get(hold) and p["op"] == "read0"
+            if at_hold_point and others:
+                if jitter and rng.chance(1, jitter):
+                    return hold
+                return others[rng.below(len(others))]
+            if not g.listed.get(hold):
+                # get the holder to its listing first
+                if jitter and others and rng.chance(1, jitter):
+                    return others[rng.below(len(others))]
+                return hold
+        return enabled[rng.below(len(enabled))]
+    return pol
+
+
+def random_policy(rng):
+    def pol(g, enabled):
+        return enabled[rng.below(len(enabled))]
+    return pol
+
+
+def _c13_gate_worker(args):
+    seedv, lo, hi, wroot = args
+    res = {"evaluations": 0, "distinct": set(), "viol": [], "counters": {}, "samples": [], "inconclusive": 0}
+    cn = res["counters"]
+
+    def cnt(k, n=1):
+        cn[k] = cn.get(k, 0) + n
+
+    b3 = B3()
+    for idx in range(lo, hi):
+        rng = SplitMix.derive(seedv, "c13g", idx)
+        wd = os.path.join(wroot, "g%d" % lo)
+        rmtree(wd)
+        home = os.path.join(wd, "home")
+        os.makedirs(home)
+        root = os.path.join(wd, "hub")
+        uni = hub_universe(rng, 4)
+        initial = {p: b"hub-initial:" + p.encode() for p in uni if rng.chance(1, 2)}
+        materialise(root, initial)
+        locs = []
+        trees = []
+        for c in range(2):
+            files = {}
+            for p in uni:
+                if rng.chance(3, 4):
+                    files[p] = b"client%d:%s:" % (c, p.encode()) + rng.bytes(4).hex().encode() + b"." * rng.pick([0, 10, 300 * 1024])
+            if not files:
+                files[uni[0]] = b"client%d-only" % c
+            if rng.chance(1, 4) and initial:
+                q = sorted(initial)[0]
+                files[q] = initial[q]  # identical to the hub: must be skipped
+            trees.append(files)
+            d = os.path.join(wd, "local%d" % c)
+            materialise(d, files)
+            locs.append(d)
+        kind = rng.pick(["stale", "stale", "stale-jitter", "random"])
+        hold = rng.below(2)
+        pol = stale_policy(hold, rng, 0) if kind == "stale" else (stale_policy(hold, rng, 6) if kind == "stale-jitter" else random_policy(rng))
+        g = HubSyncGate(wd, root, locs, base_env(home), rng, pol)
+        try:
+            outs = g.run()
+        except Inconclusive as ex:
+            res["inconclusive"] += 1
+            cnt("inconclusive[%s]" % str(ex)[:30])
+            for p in g.procs:
+                try:
+                    os.killpg(p.pid, 9)
+                except OSError:
+                    pass
+            continue
+        res["evaluations"] += 1
+        label = {"index": idx, "schedule": kind, "held": hold, "paths": uni}
+        hub = hub_files(root)
+        allids = {v[0] for v in hub.values()}
+        conflicts_reported = []
+        for c, (code, out, err) in enumerate(outs):
+            m = HUBSYNC_RE.search(out)
+            confl = CONFLICT_LINE.findall(err)
+            conflicts_reported.append(set(confl))
+            if m is None:
+                res["viol"].append(("C13|gated|no-summary-line", dict(label, client=c, code=code, stderr=err[-300:])))
+                continue
+            nconf = int(m.group(3))
+            if (code != 0) != (nconf > 0):
+                res["viol"].append(("C13|gated|exit-status-does-not-reflect-conflicts", dict(label, client=c, code=code, line=m.group(0))))
+            # every local file retrievable: at its path or as a conflict copy
+            for p, data in trees[c].items():
+                h12 = b3.data(data)[:12]
+                at_path = hub.get(p, (None,))[0] == ident(data)
+                at_conf = hub.get("%s.conflict-%s" % (p, h12), (None,))[0] == ident(data)
+                if p in confl:
+                    if not at_conf:
+                        res["viol"].append(("C13|gated|conflicting-file-not-preserved-as-conflict-copy", dict(label, client=c, path=p)))
+                    if at_path and trees[1 - c].get(p) != data:
+                        res["viol"].append(("C13|gated|reported-conflict-but-overwrote", dict(label, client=c, path=p)))
+                elif not at_path and not at_conf:
+                    # legitimately replaced only by the other client's acknowledged commit with a fresh listing
+                    other = trees[1 - c].get(p)
+                    if other is None or hub.get(p, (None,))[0] != ident(other) or p in conflicts_reported[1 - c] if len(conflicts_reported) > 1 - c else False:
+                        res["viol"].append(("C13|gated|local-file-not-retrievable-from-hub", dict(label, client=c, path=p, code=code)))
+                    else:
+                        cnt("files_replaced_by_later_acknowledged_commit")
+        # nothing another client committed has been overwritten by a client that then reported a conflict
+        for p in set(trees[0]) & set(trees[1]):
+            if trees[0][p] == trees[1][p]:
+                continue
+            live = hub.get(p, (None,))[0]
+            if live not in (ident(trees[0][p]), ident(trees[1][p])):
+                res["viol"].append(("C13|gated|live-content-is-neither-client's", dict(label, path=p)))
+        for p, data in initial.items():
+            if p not in trees[0] and p not in trees[1] and hub.get(p, (None,))[0] != ident(data):
+                res["viol"].append(("C13|gated|hub-file-at-other-path-changed", dict(label, path=p)))
+        nconfl = sum(len(x) for x in conflicts_reported)
+        if nconfl:
+            cnt("schedules_with_cas_conflicts")
+            res["distinct"].add("gated|%s|c%d|%x" % (kind, nconfl, hash(tuple((a, b.split(" ")[0]) for _, a, b in g.trace)) & 0xFFFFFF))
+        cnt("gated_schedules[%s]" % kind)
+        cnt("gated_steps", g.step)
+        if len(res["samples"]) < 1:
+            res["samples"].append(dict(label, exits=[o[0] for o in outs], conflicts=[sorted(x) for x in conflicts_reported], steps=g.step))
+        rmtree(wd)
+    b3.close()
+    return res
+
+
+def c13(tier):
+    build("cli", "shim", "vh")
+    r = Result("C13", "exploration", "sequential part: one evaluation = one `hub-sync LOCAL TARGET` in a sequence by 1-3 clients (hostile names, empty and > 256 KiB files; local-path target and vh:ROOT through the ssh stand-in): after exit 0 every local file is on the hub byte-identical, other hub paths keep bytes and inode, counters equal the model, and the immediate second run sends 0 while the traced server makes no mutating call under ROOT; gated part: one evaluation = two real hub-sync processes whose `serve` children run in gate mode; the scheduler holds one server right after it listed the tree and lets the other client finish (stale listing), with jittered and random variants; then exit status <=> conflicts, every local file of both clients is on the hub at its path or at path.conflict-<12 hex of its BLAKE3>, live content of contested paths is one client's; distinct non-trivial = sequences with both sent and skipped files, gated schedules in which a CAS conflict occurred")
+    th = tier == "thorough"
+    wroot = workdir("c13")
+    n1 = 1500 if th else 60
+    n2 = 5000 if th else 150
+    jobs1 = [(seed(), lo, min(n1, lo + max(1, n1 // (NCPU * 2))), wroot) for lo in range(0, n1, max(1, n1 // (NCPU * 2)))]
+    jobs2 = [(seed(), lo, min(n2, lo + max(1, n2 // (NCPU * 2))), wroot) for lo in range(0, n2, max(1, n2 // (NCPU * 2)))]
+    fold(r, run_jobs(_c13_seq_worker, jobs1))
+    fold(r, run_jobs(_c13_gate_worker, jobs2))
+    rmtree(wroot)
+    r.assumptions = ["in the gated part the hub-sync parents run freely; only their serve children are scheduled", "a local file missing from the hub is accepted only if the other client's different content is live there and that client reported no conflict on the path (a later acknowledged commit with a fresh listing)"]
+    finish(r, tier)
